@@ -499,6 +499,22 @@ func (w *World) coinbase(idx int, h uint64, pk int, rewards map[string]uint64, m
 		} else {
 			outs[0].Amount = 7 // no reward to drop: pay something instead
 		}
+	case "cb-zero-standin": // one paid recipient is replaced by a zero-amount output to a program that earned nothing (same number of programs)
+		var paid []int
+		for i, o := range outs {
+			if o.Amount > 0 {
+				paid = append(paid, i)
+			}
+		}
+		standin := types.NewOriginalTxOutput(btm, 0, []byte{0x51, 0x51, 0x75, byte(abs(mutArg) % 251)}, nil)
+		if len(paid) == 0 {
+			outs = append(outs, standin) // nothing is paid here: the extra output alone is wrong
+		} else if t := paid[abs(mutArg)%len(paid)]; t == 0 {
+			outs[0].Amount = 0
+			outs = append(outs, standin)
+		} else {
+			outs[t] = standin
+		}
 	case "cb-vote-output":
 		key := Key(0).XPub()
 		outs = append(outs, types.NewVoteOutput(btm, consensus.MinVoteOutputAmount, progTrue, key[:], nil))
